@@ -345,7 +345,20 @@ int compare_events(const void *a, const void *b)
         return ea->type - eb->type;
     }
     COLA_ASSERT(ea->v != eb->v);
-    return (int)(ea->v - eb->v);
+    // Order events at the same position by the scanline order of their
+    // nodes (node position and then properties of the nodes' objects),
+    // rather than by the difference of the node pointers, so the order
+    // doesn't depend on where the nodes were allocated.
+    CmpNodePos nodeLessThan;
+    if (nodeLessThan(ea->v, eb->v))
+    {
+        return -1;
+    }
+    if (nodeLessThan(eb->v, ea->v))
+    {
+        return 1;
+    }
+    return 0;
 }
 
 
